@@ -863,3 +863,85 @@ Example ex_rejects :
               [mkOF "F" "custom.F.1" ["a"] ["b"] [mkON "Neg" "" "" ["x"] ["b"] []] [("", 21%Z)] []]) = false /\
   wf_model (mkOM 10 [("", 21%Z)] [ex_main; ex_then; ex_else] [ex_fun]) = false.
 Proof. vm_compute. repeat split. Qed.
+
+(* ------------------------------------------------------------------ call sites of one function agree on argument types
+   The AST carries no FunctionProto.value_info, so the formal element types of a function are not available; what IS
+   checkable statically: every call site (in the main graph and its nested bodies) of one model function passes the
+   same KNOWN element type at each argument position (known = declared by a graph input / initializer / value_info /
+   graph output of the calling graph; 0 = unknown).  A FunctionProto built for one element type and bound to a call
+   with another (second seeded regression: function registry keyed on the dtype KIND) violates this whenever the
+   export also contains the call the definition was built for. *)
+Definition dtype_in (g : ograph) (x : string) : Z :=
+  match find (fun v => String.eqb (vi_name v) x) (og_inputs g ++ og_inits g ++ og_vinfos g ++ og_outputs g) with
+  | Some v => vi_dtype v
+  | None => 0%Z
+  end.
+
+Definition call_sites (m : omodel) : list ((string * string) * list Z) :=
+  flat_map (fun g => flat_map (fun n => match find_fun m (on_domain n) (on_op n) with
+                                        | [] => []
+                                        | _ => [((on_domain n, on_op n), map (dtype_in g) (on_ins n))]
+                                        end) (og_nodes g)) (om_graphs m).
+
+Definition ty_compat (a b : Z) : bool := (a =? 0)%Z || (b =? 0)%Z || (a =? b)%Z.
+Fixpoint tys_compat (a b : list Z) : bool :=
+  match a, b with x :: r, y :: s => ty_compat x y && tys_compat r s | _, _ => true end.
+Definition key_eqb (a b : string * string) : bool := String.eqb (fst a) (fst b) && String.eqb (snd a) (snd b).
+
+Definition call_types_ok (m : omodel) : bool :=
+  let cs := call_sites m in
+  forallb (fun c1 => forallb (fun c2 => negb (key_eqb (fst c1) (fst c2)) || tys_compat (snd c1) (snd c2)) cs) cs.
+
+Definition CallTypesAgree (m : omodel) : Prop :=
+  forall k a b, In (k, a) (call_sites m) -> In (k, b) (call_sites m) ->
+  forall i ta tb, nth_error a i = Some ta -> nth_error b i = Some tb -> ta <> 0%Z -> tb <> 0%Z -> ta = tb.
+
+Lemma tys_compat_nth : forall a b, tys_compat a b = true ->
+  forall i ta tb, nth_error a i = Some ta -> nth_error b i = Some tb -> ta <> 0%Z -> tb <> 0%Z -> ta = tb.
+Proof.
+  induction a as [|x r IH]; intros b H i ta tb Ha Hb Na Nb; [destruct i; discriminate|].
+  destruct b as [|y s]; [destruct i; discriminate|]. cbn in H. apply andb_prop in H as [H1 H2].
+  destruct i as [|i]; cbn in Ha, Hb.
+  - injection Ha as ->. injection Hb as ->. unfold ty_compat in H1.
+    apply orb_prop in H1 as [H1|H1]; [apply orb_prop in H1 as [H1|H1]|]; apply Z.eqb_eq in H1; congruence.
+  - eapply IH; eauto.
+Qed.
+
+Lemma call_types_ok_sound m : call_types_ok m = true -> CallTypesAgree m.
+Proof.
+  unfold call_types_ok, CallTypesAgree. intros H k a b Ha Hb.
+  rewrite forallb_forall in H. specialize (H _ Ha). rewrite forallb_forall in H. specialize (H _ Hb).
+  cbn [fst snd] in H. unfold key_eqb in H. rewrite !String.eqb_refl in H. cbn in H. now apply tys_compat_nth.
+Qed.
+
+Definition wf_model_typed (m : omodel) : bool := wf_model m && call_types_ok m.
+
+Theorem wf_model_typed_sound m : wf_model_typed m = true -> WF m /\ CallTypesAgree m.
+Proof.
+  unfold wf_model_typed. intro H. apply andb_prop in H as [H1 H2].
+  split; [now apply wf_model_sound | now apply call_types_ok_sound].
+Qed.
+
+Definition first_type_clash (m : omodel) : option string :=
+  let cs := call_sites m in
+  match find (fun c1 => negb (forallb (fun c2 => negb (key_eqb (fst c1) (fst c2)) || tys_compat (snd c1) (snd c2)) cs)) cs with
+  | Some c => Some ("call-argument-types-differ|" ++ fst (fst c) ++ "::" ++ snd (fst c))%string
+  | None => None
+  end.
+Definition wf_first_bad_typed (m : omodel) : option string :=
+  match wf_first_bad m with Some e => Some e | None => first_type_clash m end.
+
+(* non-vacuity: one definition bound to an int32 call (6) and an int8 call (3) is rejected; with separate definitions
+   (the unchanged exporter) or equal types it is accepted *)
+Definition ex_calls (d2 : string) (t2 : Z) : omodel :=
+  mkOM 10 [("", 21%Z); ("custom.F.1", 1%Z); ("custom.F.2", 1%Z)]
+    [mkOG 0 None [mkVI "a" 6 None; mkVI "b" t2 None] []
+       [mkON "F" "custom.F.1" "c1" ["a"] ["y"] []; mkON "F" d2 "c2" ["b"] ["z"] []]
+       [mkVI "y" 6 None; mkVI "z" t2 None] []]
+    [mkOF "F" "custom.F.1" ["a"] ["b"] [mkON "Neg" "" "" ["a"] ["b"] []] [("", 21%Z)] [];
+     mkOF "F" "custom.F.2" ["a"] ["b"] [mkON "Neg" "" "" ["a"] ["b"] []] [("", 21%Z)] []].
+Example ex_call_types :
+  wf_model_typed (ex_calls "custom.F.1" 3) = false /\ wf_model (ex_calls "custom.F.1" 3) = true /\
+  wf_model_typed (ex_calls "custom.F.2" 3) = true /\ wf_model_typed (ex_calls "custom.F.1" 6) = true /\
+  wf_first_bad_typed (ex_calls "custom.F.1" 3) = Some "call-argument-types-differ|custom.F.1::F".
+Proof. vm_compute. repeat split. Qed.
